@@ -19,6 +19,8 @@ pub enum Event {
     SenderDropMidMessage,
     ReceiverClose,
     ReceiverDrop,
+    /// the connection is lost (dispatcher of the sending endpoint aborted) after `pos` messages were received
+    ConnCut,
 }
 
 #[derive(Clone, Copy, Debug, PartialEq, Eq)]
@@ -40,9 +42,12 @@ pub struct Case {
 pub fn enumerate() -> Vec<Case> {
     let mut v = Vec::new();
     for kind in [Kind::Port, Kind::Base, Kind::Lr, Kind::Mpsc] {
-        for event in [Event::SenderDrop, Event::SenderDropMidMessage, Event::ReceiverClose, Event::ReceiverDrop] {
+        for event in [Event::SenderDrop, Event::SenderDropMidMessage, Event::ReceiverClose, Event::ReceiverDrop, Event::ConnCut] {
             if event == Event::SenderDropMidMessage && kind != Kind::Port {
                 continue;
+            }
+            if event == Event::ConnCut && kind == Kind::Port {
+                continue; // port-level cuts are C06's subject
             }
             for n_msgs in [1usize, 2, 4, 8] {
                 for pos in 0..=n_msgs {
@@ -78,12 +83,20 @@ pub fn run_case(run: u64, seed: u64, case: &Case) -> RunOut {
         cfg_a.max_data_size = 4096;
         cfg_b.max_data_size = 4096;
     }
-    let netcfg = draw_netcfg(&mut rng);
+    let mut netcfg = draw_netcfg(&mut rng);
+    // close() cancelled while the receiver's path to the transport is clogged, then retried
+    let pressure = case.kind == Kind::Port && case.event == Event::ReceiverClose && rng.chance(40);
+    if pressure {
+        cfg_b.shared_send_queue = 1;
+        cfg_b.transport_send_queue = 1;
+        netcfg.capacity = 1;
+    }
+    let poll_api = rng.chance(50);
     let h1 = *rng.pick(&[0u64, 0, 20, 50]);
     let n_senders = if case.kind == Kind::Mpsc { 1 + rng.usize_below(3) } else { 1 };
     let lens: Vec<usize> = (0..case.n_msgs).map(|_| *rng.pick(&[0usize, 1, 5, 17, 40, 150, 600])).collect();
     let replay = json!({"run": run, "seed": seed, "kind": format!("{:?}", case.kind), "event": format!("{:?}", case.event), "n_msgs": case.n_msgs,
-        "position": case.pos, "lens": lens, "senders": n_senders, "cfg_a": cfg_json(&cfg_a), "cfg_b": cfg_json(&cfg_b), "net": netcfg_class(&netcfg), "h1_pct": h1});
+        "position": case.pos, "lens": lens, "senders": n_senders, "close_cancelled_under_backpressure": pressure, "poll_api": poll_api, "cfg_a": cfg_json(&cfg_a), "cfg_b": cfg_json(&cfg_b), "net": netcfg_class(&netcfg), "h1_pct": h1});
     let mut out = RunOut::default();
     let panics0 = crate::mem::panic_count();
     let prefix = crate::clock::thread_prefix();
@@ -97,8 +110,9 @@ pub fn run_case(run: u64, seed: u64, case: &Case) -> RunOut {
             Kind::Port => {
                 let Conn { net: n, a, mut b, sched } = connect_pair(cfg_a.clone(), cfg_b.clone(), netcfg.clone(), &mut rng).await?;
                 net = n;
-                let ((mut tx, rx_a), (tx_b, mut rx)) = open_port(&a.client, &mut b.listener).await?;
-                keep.push(Box::new((rx_a, tx_b, a, b, sched)));
+                let ((mut tx, rx_a), (mut tx_b, mut rx)) = open_port(&a.client, &mut b.listener).await?;
+                keep.push(Box::new((rx_a, a, b, sched)));
+                let net_r = net.clone();
                 let closed = tx.closed();
                 let h2 = hist.clone();
                 crate::sched::spawn(async move {
@@ -154,6 +168,20 @@ pub fn run_case(run: u64, seed: u64, case: &Case) -> RunOut {
                     let mut got = 0usize;
                     loop {
                         if event == Event::ReceiverClose && got == pos {
+                            if pressure {
+                                // clog this endpoint's path to the transport, cancel close() while it waits, retry
+                                net_r.set_starved(crate::simnet::Dir::BA, true);
+                                for _ in 0..6 {
+                                    let _ = tx_b.try_send(&Bytes::from_static(b"x"));
+                                    tokio::task::yield_now().await;
+                                }
+                                let r = or_quiescent(crate::sched::CancelAt::new(rx.close(), 1 + (got as u32 % 3))).await;
+                                let cancelled = !matches!(r, Some(Some(())));
+                                net_r.set_starved(crate::simnet::Dir::BA, false);
+                                if cancelled {
+                                    h2.lock().unwrap().recv_errs.clear();
+                                }
+                            }
                             rx.close().await;
                         }
                         if event == Event::ReceiverDrop && got == pos {
@@ -189,7 +217,7 @@ pub fn run_case(run: u64, seed: u64, case: &Case) -> RunOut {
                 settle().await;
                 // probe after quiescence: a later send must fail with the right classification
                 if let Ok(Some(mut tx)) = or_quiescent(stask).await.unwrap_or(Ok(None)) {
-                    if event == Event::ReceiverClose || event == Event::ReceiverDrop {
+                    if event == Event::ReceiverClose || event == Event::ReceiverDrop || event == Event::ConnCut {
                         let r = or_quiescent(tx.send(Bytes::from_static(b"probe"))).await;
                         let mut h = hist.lock().unwrap();
                         match r {
@@ -210,14 +238,32 @@ pub fn run_case(run: u64, seed: u64, case: &Case) -> RunOut {
                 net = n;
                 let RchEnd { tx: mut tx_ab, rx: rx_a, conn: ca } = a;
                 let RchEnd { tx: tx_b, rx: mut rx_ab, conn: cb } = b;
-                keep.push(Box::new((rx_a, ca, tx_b, cb, sched)));
+                keep.push(Box::new((rx_a, tx_b, cb, sched)));
+                let cut_now = Arc::new(tokio::sync::Notify::new());
+                {
+                    // the connection is lost when the receiver has obtained `pos` messages (or at quiescence)
+                    let cut_now = cut_now.clone();
+                    if event == Event::ConnCut {
+                        crate::sched::spawn(async move {
+                            let _ = or_quiescent(cut_now.notified()).await;
+                            ca.abort();
+                            crate::simnet::bump_progress();
+                        });
+                    } else {
+                        keep.push(Box::new(ca));
+                    }
+                }
                 macro_rules! recv_side {
-                    ($rx:expr, |$r:ident| $close:expr, $conv:expr) => {{
+                    ($rx:expr, |$r:ident| $close:expr, |$q:ident| $recv:expr, $conv:expr) => {{
                         let h2 = hist.clone();
                         let mut rx = $rx;
+                        let cut_now = cut_now.clone();
                         crate::sched::spawn(async move {
                             let mut got = 0usize;
                             loop {
+                                if event == Event::ConnCut && got == pos {
+                                    cut_now.notify_one();
+                                }
                                 if event == Event::ReceiverClose && got == pos {
                                     let $r = &mut rx;
                                     $close;
@@ -226,7 +272,10 @@ pub fn run_case(run: u64, seed: u64, case: &Case) -> RunOut {
                                     drop(rx);
                                     return;
                                 }
-                                let r = rx.recv().await;
+                                let r = {
+                                    let $q = &mut rx;
+                                    $recv
+                                };
                                 crate::simnet::bump_progress();
                                 match r {
                                     Ok(Some(x)) => {
@@ -252,7 +301,7 @@ pub fn run_case(run: u64, seed: u64, case: &Case) -> RunOut {
                 }
                 match kind {
                     Kind::Base => {
-                        let rt = recv_side!(rx_ab, |r| r.close().await, |x: Ship| if let Ship::Item(i) = x { Some(i.id) } else { None });
+                        let rt = recv_side!(rx_ab, |r| r.close().await, |q| q.recv().await, |x: Ship| if let Ship::Item(i) = x { Some(i.id) } else { None });
                         keep.push(Box::new(rt));
                         let h2 = hist.clone();
                         let lens2 = lens.clone();
@@ -280,7 +329,7 @@ pub fn run_case(run: u64, seed: u64, case: &Case) -> RunOut {
                         });
                         settle().await;
                         if let Ok(Some(mut tx)) = or_quiescent(st).await.unwrap_or(Ok(None)) {
-                            if event == Event::ReceiverClose || event == Event::ReceiverDrop {
+                            if event == Event::ReceiverClose || event == Event::ReceiverDrop || event == Event::ConnCut {
                                 let r = or_quiescent(tx.send(Ship::Nothing)).await;
                                 let mut h = hist.lock().unwrap();
                                 match r {
@@ -300,7 +349,7 @@ pub fn run_case(run: u64, seed: u64, case: &Case) -> RunOut {
                         sr.map_err(|e| e.to_string())?;
                         let Ok(Some(Ship::LrRx(lrx))) = rr else { return Err("lr receiver did not arrive".into()) };
                         keep.push(Box::new((tx_ab, rx_ab)));
-                        let rt = recv_side!(lrx, |r| r.close().await, |x: Item| Some(x.id));
+                        let rt = recv_side!(lrx, |r| r.close().await, |q| q.recv().await, |x: Item| Some(x.id));
                         keep.push(Box::new(rt));
                         let h2 = hist.clone();
                         let lens2 = lens.clone();
@@ -328,7 +377,7 @@ pub fn run_case(run: u64, seed: u64, case: &Case) -> RunOut {
                         });
                         settle().await;
                         if let Ok(Some(mut tx)) = or_quiescent(st).await.unwrap_or(Ok(None)) {
-                            if event == Event::ReceiverClose || event == Event::ReceiverDrop {
+                            if event == Event::ReceiverClose || event == Event::ReceiverDrop || event == Event::ConnCut {
                                 let r = or_quiescent(tx.send(Item::new(999, 3))).await;
                                 let mut h = hist.lock().unwrap();
                                 match r {
@@ -350,7 +399,7 @@ pub fn run_case(run: u64, seed: u64, case: &Case) -> RunOut {
                         sr.map_err(|e| e.to_string())?;
                         let Ok(Some(Ship::MpscRx(mrx))) = rr else { return Err("mpsc receiver did not arrive".into()) };
                         keep.push(Box::new((tx_ab, rx_ab)));
-                        let rt = recv_side!(mrx, |r| r.close(), |x: Item| Some(x.id));
+                        let rt = recv_side!(mrx, |r| r.close(), |q| if poll_api { futures::future::poll_fn(|cx| q.poll_recv(cx)).await } else { q.recv().await }, |x: Item| Some(x.id));
                         keep.push(Box::new(rt));
                         // one sender task per clone; ids carry the clone index
                         let mut stasks = Vec::new();
@@ -369,7 +418,7 @@ pub fn run_case(run: u64, seed: u64, case: &Case) -> RunOut {
                                         Ok(sending) => handles.push((id, sending)),
                                         Err(e) => {
                                             let mut h = h2.lock().unwrap();
-                                            h.send_errs.push(format!("closed={} reason={:?}", e.is_closed(), e.closed_reason()));
+                                            h.send_errs.push(format!("closed={} reason={:?} [{}]", e.is_closed(), e.closed_reason(), e));
                                             break;
                                         }
                                     }
@@ -399,7 +448,7 @@ pub fn run_case(run: u64, seed: u64, case: &Case) -> RunOut {
                         settle().await;
                         for st in stasks {
                             if let Some(Ok(Some(tx))) = or_quiescent(st).await {
-                                if event == Event::ReceiverClose || event == Event::ReceiverDrop {
+                                if event == Event::ReceiverClose || event == Event::ReceiverDrop || event == Event::ConnCut {
                                     let closed = or_quiescent(tx.closed()).await.is_some();
                                     let mut h = hist.lock().unwrap();
                                     h.closed_future_resolved = closed;
@@ -484,6 +533,29 @@ pub fn run_case(run: u64, seed: u64, case: &Case) -> RunOut {
                     bad.push(("C11:closed-future-pending".into(), format!("{name}: Sender::closed() has not resolved at quiescence")));
                 }
             }
+            Event::ConnCut => {
+                // the receiver must learn of the failure: an error, never a clean end-of-stream
+                if h.eos {
+                    bad.push(("C11:connection-failure-reported-as-end-of-stream".into(), format!("{name}: the connection was lost with the sender alive, but the receiver saw a clean end-of-stream after {} messages", h.received.len())));
+                } else if h.recv_errs.is_empty() {
+                    bad.push(("C11:connection-failure-not-observed".into(), format!("{name}: the connection was lost but the receiver is still pending at quiescence")));
+                }
+                if let Some(e) = h.send_errs.iter().find(|e| e.contains("PROBE")) {
+                    bad.push(("C11:send-after-failure-not-refused".into(), format!("{name}: a send attempted after the connection was lost gave {e}")));
+                }
+                for e in &h.send_errs {
+                    if e.contains("gracefully: true") || e.contains("closed=true") {
+                        bad.push(("C11:failure-misclassified".into(), format!("{name}: the connection failed, send error {e} is classified as a graceful close")));
+                    }
+                }
+                if kind == Kind::Mpsc {
+                    if let Some(r) = &h.closed_reason {
+                        if !r.contains("Failed") {
+                            bad.push(("C11:failure-misclassified".into(), format!("{name}: closed_reason() = {r}, expected Some(Failed)")));
+                        }
+                    }
+                }
+            }
             Event::ReceiverDrop => {
                 if let Some(e) = h.send_errs.iter().find(|e| e.contains("PROBE")) {
                     bad.push(("C11:send-after-drop-not-refused".into(), format!("{name}: a send attempted after quiescence gave {e}")));
@@ -516,7 +588,7 @@ pub fn run_case(run: u64, seed: u64, case: &Case) -> RunOut {
                         if seen_err {
                             bad.push(("C11:sending-results-not-a-suffix".into(), format!("{name}: value {id:#x} was transmitted after an earlier value of the same sender was reported as dropped")));
                         }
-                        if event != Event::ReceiverDrop && !h.received.contains(id) {
+                        if event != Event::ReceiverDrop && event != Event::ConnCut && !h.received.contains(id) {
                             bad.push(("C11:acknowledged-value-not-delivered".into(), format!("{name}: Sending handle of {id:#x} reported Ok but the value was never received")));
                         }
                     } else {
